@@ -75,7 +75,7 @@ type PkgSpec struct {
 	// file (two files agreeing on a tag leave no doubt about its effective value).
 	DupDocTags []Tag  `json:"dup_doc_tags,omitempty"`
 	Anchor     string `json:"anchor"` // an exported struct type other packages refer to
-	InSub   bool       `json:"in_sub,omitempty"`
+	InSub      bool   `json:"in_sub,omitempty"`
 }
 
 // ModuleSpec describes a synthetic module.
